@@ -36,6 +36,11 @@ BUDGET = {
 HASH_SEED_IS_PROPERTY = {"C12", "C17"}
 
 
+def twin_hash_seed(idx):
+    """The second interpreter of determinism pair idx: every hash seed of the pool but the first, in turn."""
+    return procs.HASH_SEEDS[1 + idx % (len(procs.HASH_SEEDS) - 1)]
+
+
 def load_known():
     path = os.path.join(HERE, "known_findings.json")
     if not os.path.exists(path):
@@ -83,7 +88,7 @@ def run_check(prop, tier, seed, runs=None, workers=None, wall_cap=None):
         tasks.append(task)
     for idx in range(n_pairs):
         tasks.append({"prop": prop, "mode": "run", "seed": seed, "run": idx, "tier": tier, "known": findings,
-                      "hash_seed": procs.HASH_SEEDS[1], "minimise": False, "twin": True})
+                      "hash_seed": twin_hash_seed(idx), "minimise": False, "twin": True})
     state = {"violations": 0}
 
     def progress(idx, res):
@@ -157,13 +162,13 @@ def run_check(prop, tier, seed, runs=None, workers=None, wall_cap=None):
         n_viol += len(mismatches)
         path = os.path.join(REPLAY_DIR, "%s-hashseed-%d.json" % (prop, seed))
         os.makedirs(os.path.dirname(path), exist_ok=True)
-        payload = hashseed_replay(prop, seed, tier, mismatches[0], findings)
+        payload = hashseed_replay(prop, seed, tier, mismatches[0], findings, [procs.HASH_SEEDS[0], twin_hash_seed(mismatches[0])])
         payload["runs_with_different_logs"] = mismatches
         with open(path, "w") as handle:
             json.dump(payload, handle, indent=1)
         violation_lines.append("VIOLATION property=%s replay=%s" % (prop, path))
         print("  class=%s.hash-seed: %d of %d runs gave different event logs under PYTHONHASHSEED %s and %s (runs %r); replay minimised in %d steps"
-              % (prop, len(mismatches), pairs_compared, procs.HASH_SEEDS[0], procs.HASH_SEEDS[1], mismatches[:10], payload.get("minimise_steps", 0)), flush=True)
+              % (prop, len(mismatches), pairs_compared, procs.HASH_SEEDS[0], "/".join(procs.HASH_SEEDS[1:]), mismatches[:10], payload.get("minimise_steps", 0)), flush=True)
 
     enum = None
     if prop in ("C12", "C17") and not runs:
@@ -302,11 +307,11 @@ def _digests_under(prop, scenario, hash_seeds, findings):
     return [(r.get("status"), r.get("digest")) for r in results]
 
 
-def hashseed_replay(prop, seed, tier, run_index, findings, budget_s=90.0):
+def hashseed_replay(prop, seed, tier, run_index, findings, hash_seeds=None, budget_s=90.0):
     """Replay file for a cross-interpreter difference: the scenario, minimised while the
     event-log digests under the two hash seeds still differ."""
     from sim.registry import engine
-    hash_seeds = procs.HASH_SEEDS[:2]
+    hash_seeds = hash_seeds or procs.HASH_SEEDS[:2]
     task = {"prop": prop, "mode": "run", "seed": seed, "run": run_index, "tier": tier, "minimise": False,
             "return_scenario": True, "hash_seed": hash_seeds[0], "known": findings}
     results, errors = procs.run_tasks([task], n_workers=1)
